@@ -399,7 +399,7 @@ class SeqBuilder:
             cs = n.get("c", [])
             for idx, c in enumerate(cs):
                 if c["k"] == "IfStmt" and c.get("else") is None and self.terminates(c.get("then")) and idx + 1 < len(cs) and \
-                        any(x["k"] in ("CallExpr", "CXXMemberCallExpr", "CXXConstructExpr", "CXXNewExpr") for x in walk(c["then"])):
+                        (self.mode == "w" or any(x["k"] in ("CallExpr", "CXXMemberCallExpr", "CXXConstructExpr", "CXXNewExpr") for x in walk(c["then"]))):
                     # `if (c) { ...; return; } rest`  ==  `if (c) { ... } else { rest }`
                     syn = dict(c)
                     syn["else"] = {"k": "CompoundStmt", "id": -c["id"], "l": cs[idx + 1].get("l"), "c": cs[idx + 1:]}
@@ -445,6 +445,10 @@ class SeqBuilder:
             e_term = self.terminates(n.get("else")) if n.get("else") is not None else False
             if t_term and not t_items:
                 self.env = env_e           # guard: if (bad) return ...;
+                if self.mode == "w" and e_items and not getattr(self, "in_helper", False):
+                    # a writer that returns before writing: on that path the image lacks everything that follows
+                    items.append(Item("if", n, cond=cond, then=[], els=e_items))
+                    return
                 items.extend(e_items)
                 return
             if e_term and not e_items:
@@ -726,9 +730,16 @@ def field_defs(db, rec, prefer=()):
                 continue
             cur[fn] = vv
         if defs is None:
-            defs = cur
+            defs = {fn: [v] for fn, v in cur.items()}
         else:
-            defs = {fn: v for fn, v in defs.items() if fn in cur and symx.differ_witness(v, cur[fn]) is None}
+            nd = {}
+            for fn, vs in defs.items():
+                if fn not in cur:
+                    continue            # some constructor gives no usable definition: the field stays opaque
+                if all(symx.differ_witness(v, cur[fn]) is not None for v in vs):
+                    vs = vs + [cur[fn]]  # constructors disagree: every variant is checked against the reader
+                nd[fn] = vs
+            defs = nd
     _FDEF[key] = defs or {}
     return _FDEF[key]
 
@@ -766,18 +777,33 @@ class Mirror:
         if self.w.rec and any(x[0] == "field" for x in symx.atoms(a)):
             prefer = [c_[len("F:this."):] for c_ in self.wvalmap if c_.startswith("F:this.")]
             defs = field_defs(self.db, self.w.rec, prefer)
-            sub = {}
+            variants = [{}]
             for x in symx.atoms(a):
                 if x[0] == "field" and len(x[1]) == 2 and x[1][0] == "this" and x[1][1] in defs:
-                    d = defs[x[1][1]]
-                    # express the definition through the slots the writer has already emitted for those fields
-                    fm = {}
-                    for y in symx.atoms(d):
-                        if y[0] == "field" and canon(y) in self.wvalmap:
-                            fm[y] = self.wvalmap[canon(y)]
-                    sub[x] = rename(d, fm)
-            if sub:
-                a = rename(a, sub)
+                    nv = []
+                    for d in defs[x[1][1]]:
+                        # express the definition through the slots the writer has already emitted for those fields
+                        fm = {}
+                        for y in symx.atoms(d):
+                            if y[0] == "field" and canon(y) in self.wvalmap:
+                                fm[y] = self.wvalmap[canon(y)]
+                        for v in variants:
+                            v2 = dict(v)
+                            v2[x] = rename(d, fm)
+                            nv.append(v2)
+                    variants = nv[:8]
+            if len(variants) > 1 or variants[0]:
+                worst = None
+                for sub in variants:
+                    res = self._cmp_plain(rename(a, sub), b)
+                    if res is not None and res != "undecided":
+                        return res          # one constructor's object is saved differently from what the reader consumes
+                    if res == "undecided":
+                        worst = res
+                return worst
+        return self._cmp_plain(a, b)
+
+    def _cmp_plain(self, a, b):
         a, b = rename(a, self.mw), rename(b, self.mr)
         if canon(a) == canon(b):
             return None
